@@ -242,16 +242,18 @@ inductive IntResult where
 
 def digitsValue (ds : Bytes) : Nat := ds.foldl (fun a d => 10 * a + (d.toNat - 48)) 0
 
-/-- `atoi`: optional white space, optional sign, the longest run of decimal digits -/
-def atoi (s : Bytes) : IntResult :=
-  let s1 := s.dropWhile isSpace
-  let (neg, s2) := match s1 with
-    | 45 :: r => (true, r)
-    | 43 :: r => (false, r)
-    | _ => (false, s1)
-  let n : Int := digitsValue (s2.takeWhile isDigit)
+/-- the digits part of `atoi`: the longest run of decimal digits, negated when a '-' came first -/
+def atoiDigits (neg : Bool) (s : Bytes) : IntResult :=
+  let n : Int := digitsValue (s.takeWhile isDigit)
   let v : Int := if neg then -n else n
   if -2147483648 ≤ v ∧ v ≤ 2147483647 then .val v else .overflow
+
+/-- `atoi`: optional white space, optional sign, the longest run of decimal digits -/
+def atoi (s : Bytes) : IntResult :=
+  match s.dropWhile isSpace with
+  | 45 :: r => atoiDigits true r
+  | 43 :: r => atoiDigits false r
+  | r => atoiDigits false r
 
 def parameterInt (f : IniFile) (sec key : Bytes) (dflt : Int) : IntResult :=
   match findParameter f sec key with
@@ -343,7 +345,7 @@ def strtod (str : Bytes) : Float :=
           | 43 :: r' => (false, r')
           | _ => (false, r)
         let expon := (dExp r 0).toNat
-        let expon := if expon > 308 then 308 else expon
+        let expon := if expon > PV.Generated.Ini.strMaxExpon then PV.Generated.Ini.strMaxExpon else expon
         -- while (expon >= 50) …; while (expon >= 8) …; while (expon > 0) …
         let s1 := mulN (expon / 50) 1.0 f1e50
         let s2 := mulN (expon % 50 / 8) s1 f1e8
